@@ -364,8 +364,11 @@ func (o *OperationNormalizer) setupOperationWalkers() {
 
 	if o.options.extractVariables {
 		variablesProcessing := astvisitor.NewWalkerWithID(8, "VariablesProcessing")
-		inputCoercionForList(&variablesProcessing)
+		// order matters: visitors of one variable definition run in registration order. The default
+		// value has to be in the variables before list coercion looks at them, otherwise a default
+		// that needs coercion below its top level (e.g. [[Int]] = [1]) is stored uncoerced.
 		extractVariablesDefaultValue(&variablesProcessing)
+		inputCoercionForList(&variablesProcessing)
 		injectInputFieldDefaults(&variablesProcessing)
 
 		o.operationWalkers = append(o.operationWalkers, walkerStage{
